@@ -546,6 +546,37 @@ example : bicycloButane.WF = true ∧ twoComp.WF = true ∧
   decide +kernel
 
 
+/-- the hypotheses of `dfs_covers_component` are satisfiable by a non-trivial instance: bicyclo[1.1.0]butane, `atoms_set` = all
+    atoms, start 1, its neighbours in stored order; the run visits 4 atoms and finds 2 cycles -/
+example :
+    let m := bicycloButane
+    let S := m.ids
+    (∀ a ∈ S, ∀ b ∈ nk m a, b ∈ S) ∧ S.length ≤ m.atoms.length ∧ 1 ∈ S ∧
+    (match dfsRun m bicycloEnv {} [] [(1, 0), (2, 1), (3, 1), (4, 1)] 50
+        { stack := [{ parent := 1, depth := S.length, children := nk m 1 }], visited := [(1, [])], cycle := 0, draws := [] } with
+     | .ok r => r.visited.length == 4 && r.cycle == 2 && r.stack.isEmpty
+     | .error _ => false) = true := by
+  decide +kernel
+
+/-- `NoAromaticHalogen` (hypothesis of `text_reads_back_constitution`) holds for the two-component example: no atom is aromatic -/
+example : NoAromaticHalogen twoComp {} := by
+  intro n atom _ _ hh
+  exfalso
+  have : ∀ k, k ∈ [1, 2, 3, 4, 5] → hybridization twoComp k ≠ 4 := by decide
+  by_cases hk : n ∈ [1, 2, 3, 4, 5]
+  · exact this n hk hh
+  · have : twoComp.nbrs n = [] := by
+      simp only [List.mem_cons, List.not_mem_nil, or_false, not_or] at hk
+      obtain ⟨h1, h2, h3, h4, h5⟩ := hk
+      have b1 : (n == 1) = false := by simpa using h1
+      have b2 : (n == 2) = false := by simpa using h2
+      have b3 : (n == 3) = false := by simpa using h3
+      have b4 : (n == 4) = false := by simpa using h4
+      have b5 : (n == 5) = false := by simpa using h5
+      simp [Mol.nbrs, twoComp, List.lookup, b1, b2, b3, b4, b5]
+    simp [hybridization, this] at hh
+
+
 /-! ## 6. injectivity from losslessness -/
 
 /-- **injective_of_lossless**: for ANY writer, reader and equivalence `iso`: if reading what was written gives back an
